@@ -6,6 +6,7 @@ import NutsModel.C17.Kid
 import NutsModel.C17.LdBytes
 import NutsModel.C17.Jwk
 import NutsModel.C17.JarSet
+import NutsModel.C17.CaseVar
 import NutsModel.Facts.C17
 open Lean Nuts.Drv Nuts.C17 Nuts
 
@@ -89,6 +90,16 @@ def step (st : Unit) (j : Json) : Unit × List String :=
   else
   if jStr j "op" == "resolvekid" then
     (st, [Kid.normKidS (jStr j "kid") (jStr j "issuer")])
+  else
+  if jStr j "op" == "casevar" then
+    -- caseVariantMember(document, decodedInto): the reflect loop over the struct's json tags, then ambiguousMember; separator / skipped names regenerated
+    let t := jObj j "ty"
+    let base : CaseVar.GoType := match jStr t "kind" with
+      | "struct" => .struct (jStrs t "tags") | "nil" => .nil | _ => .other
+    let ty := (List.range (jNat t "ptr")).foldl (fun g _ => CaseVar.GoType.ptr g) base
+    let doc : Fold.JMembers := match toJVal (jObj j "doc") with | .obj m => m | _ => .nil
+    let sep : Char := (Facts.C17.caseVariantCutSep.toList.head?).getD ','
+    (st, [match CaseVar.caseVariantMember sep Facts.C17.caseVariantSkipNames modelFold ty doc with | some _ => "found" | none => "clean"])
   else
   if jStr j "op" == "ambig" then
     (st, [match Fold.ambVal modelFold (toJVal (jObj j "doc")) with | some _ => "ambiguous" | none => "clean"])
